@@ -4,7 +4,7 @@
     (ticks with any scheduler answer, submission results, status reports, worker connects / losses
     for known and unknown allocations, job submits, pause / resume / remove, time advances) whose
     witnesses pass the model's validation; [g] are history variables. *)
-From HQ Require Import Base.Prelude Gen.Consts Autoalloc.Model Autoalloc.Spec Autoalloc.Lemmas Autoalloc.Trans Autoalloc.ProofsC17.
+From HQ Require Import Base.Prelude Gen.Consts Autoalloc.Model Autoalloc.Spec Autoalloc.Lemmas Autoalloc.Trans Autoalloc.ProofsC17 Autoalloc.ProofsBackoff.
 Open Scope N_scope.
 
 (** #queued allocations <= backlog, at all times *)
@@ -44,6 +44,24 @@ Theorem C17_backoff : forall s o s' outs qi,
                | None => True
                end.
 Proof. exact backoff_respected. Qed.
+
+(** ... where `last_submission` is exactly the time of the previous attempt: a step sets it to "now"
+    iff it makes a submission attempt for the queue, and no other step changes it *)
+Theorem C17_last_attempt_recorded : forall s o s' outs qi q,
+  step s o = Ok (s', outs) -> get_queue s qi = Some q ->
+  match get_queue s' qi with
+  | Some q' => if has_submit qi outs then last_of q' = Some (s_now s) else last_of q' = last_of q
+  | None => True
+  end.
+Proof. exact last_attempt_recorded. Qed.
+
+(** the failure counters count consecutive failures *)
+Theorem C17_counters_count_consecutive_failures : forall l,
+  l_sfails (on_submission_fail l) = l_sfails l + 1 /\ l_sfails (on_submission_success l) = 0
+  /\ l_afails (on_allocation_fail l) = l_afails l + 1 /\ l_afails (on_allocation_success l) = 0
+  /\ l_afails (on_submission_fail l) = l_afails l /\ l_afails (on_submission_success l) = l_afails l
+  /\ l_sfails (on_allocation_fail l) = l_sfails l /\ l_sfails (on_allocation_success l) = l_sfails l.
+Proof. exact counters_count_consecutive_failures. Qed.
 
 (** the combined executable predicate used as monitor *)
 Theorem C17_submit_only_when_allowed : forall s o s' outs qi,
@@ -116,3 +134,5 @@ Print Assumptions C17_resume_submits.
 Print Assumptions C17_eligible_tick_submits.
 Print Assumptions C17_F14_unfixed_refuted.
 Print Assumptions C17_limiter_index_in_bounds.
+Print Assumptions C17_last_attempt_recorded.
+Print Assumptions C17_counters_count_consecutive_failures.
